@@ -309,94 +309,115 @@ def firstProblem : List (Option OSet) → Option Bool
   | none :: _ => some true
   | some p :: rest => if p.revision = 0 then some false else firstProblem rest
 
+/-- `reportPausedCondition` (no delegated phases: phasesArePaused = spec paused) followed by the
+final `updateStatus`. -/
+def finishMem (mem : OSet) : OSet :=
+  if mem.lifecycle = .paused then
+    { mem with conds := setCond mem.conds ⟨"Paused", "True", "Paused", mem.gen, ""⟩ }
+  else { mem with conds := removeCond mem.conds "Paused" }
+
+def finish (s : Sys) (mem : OSet) (res : Res) : Sys × Res :=
+  afterStatus (s.updateStatus (finishMem mem)) res
+
+/-- `UpdateObjectSetOrPhaseStatusFromError` for preflight / collision errors. -/
+def statusFromError (s : Sys) (mem : OSet) (reason : String) : Sys × Res :=
+  let mem := { mem with conds := setCond mem.conds (availableCond mem.gen false reason "") }
+  afterStatus (s.updateStatus mem) .requeue
+
+/-- InTransition is set / removed. -/
+def transConds (cs : List Cond) (trans : Bool) (gen : Nat) : List Cond :=
+  if trans then setCond cs ⟨"InTransition", "True", "InTransition", gen, ""⟩ else removeCond cs "InTransition"
+
+/-- Available is set from the probing result of the pass. -/
+def availConds (cs : List Cond) (gen : Nat) (failing : Option String) : List Cond :=
+  match failing with
+  | some ph => setCond cs (availableCond gen false "ProbeFailure" ph)
+  | none => setCond cs (availableCond gen true "Available" "")
+
+/-- Succeeded is set (never removed) once Available and not InTransition
+(hasSurvivedDelay with successDelaySeconds = 0: Available is True now). -/
+def succConds (cs : List Cond) (gen : Nat) (trans : Bool) (failing : Option String) : List Cond :=
+  if failing.isNone && !condTrue cs "Succeeded" && !trans then
+    setCond cs ⟨"Succeeded", "True", "RolloutSuccess", gen, ""⟩
+  else cs
+
+/-- the status the pass derives from the result of the phases (`objectSetPhasesReconciler.Reconcile`
+after `reconcile` returned without error). -/
+def deriveStatus (mem : OSet) (controllerOf : List CRef) (failing : Option String) : OSet :=
+  let trans := inTransition { mem with controllerOf := controllerOf } controllerOf
+  { mem with
+    controllerOf := controllerOf
+    conds := succConds (availConds (transConds mem.conds trans mem.gen) mem.gen failing) mem.gen trans failing }
+
+/-- `objectSetPhasesReconciler.Reconcile` + the tail of the controller pass, for an ObjectSet
+that is active or paused (not deleting, not archived), after finalizer and revision handling. -/
+def activePhases (cfg : Cfg) (rm : Remotes) (s : Sys) (mem : OSet) : Sys × Res :=
+  if hasDuplicates mem.phases then statusFromError s mem "PreflightError"
+  else
+    let prev := lookupPrev s mem
+    let (w, pr) := reconcilePhases cfg mem.owner prev (rm.recon mem) mem.phases s.w []
+    let s := { s with w := w }
+    match pr with
+    | .error .preflight => statusFromError s mem "PreflightError"
+    | .error .collision => statusFromError s mem "CollisionDetected"
+    | .error .other => (s, .err)
+    | .ok (controllerOf, failing) => finish s (deriveStatus mem controllerOf failing) .ok
+
+/-- `revisionReconciler.Reconcile`: `.error r` = the pass ends here with result `r`. -/
+def revisionStep (s : Sys) (mem : OSet) : Sys × Except Res OSet :=
+  if mem.revision ≠ 0 then (s, .ok mem)
+  else if mem.previous.isEmpty then (s, .ok { mem with revision := 1 })
+  else
+    -- the loop returns at the first previous revision that is missing (error) or has not
+    -- reported its revision yet (requeue), in spec order
+    match firstProblem (mem.previous.map s.sets) with
+    | some true => (s, .error .err)
+    | some false => (s, .error .requeue)
+    | none =>
+      let revs := (mem.previous.map s.sets).filterMap fun p => p.map (·.revision)
+      let mem := { mem with revision := revs.foldl max 0 + 1 }
+      match s.updateStatus mem with
+      | (s, .ok mem) => (s, .ok mem)
+      | (s, .error _) => (s, .error .err)
+
+/-- `handleDeletionAndArchival` + what follows it in `Reconcile`. -/
+def deletionOrArchival (cfg : Cfg) (rm : Remotes) (s : Sys) (mem : OSet) : Sys × Res :=
+  let (w, tr) := if mem.finCached then teardown cfg mem (rm.tear mem) s.w else (s.w, TRes.done)
+  let s := { s with w := w }
+  match tr with
+  | .err => (s, .err)
+  | .notDone =>
+    let mem := if mem.lifecycle = .archived then
+      { mem with conds := setCond mem.conds ⟨"Archived", "False", "ArchivalInProgress", mem.gen, ""⟩ } else mem
+    let mem := { mem with conds := removeCond mem.conds "Available" }
+    if mem.lifecycle ≠ .archived then (s, .ok)
+    else afterStatus (s.updateStatus mem) .ok
+  | .done =>
+    let s := { s with freed := s.freed ++ [mem.name] }
+    match s.setFinalizer mem false with
+    | (s, .error _) => (s, .err)
+    | (s, .ok mem) =>
+      let mem := if mem.lifecycle = .archived then
+        { mem with conds := setCond mem.conds ⟨"Archived", "True", "Archived", mem.gen, ""⟩, controllerOf := [] } else mem
+      let mem := { mem with conds := removeCond mem.conds "Available" }
+      if mem.lifecycle ≠ .archived then (s, .ok)
+      else afterStatus (s.updateStatus mem) .ok
+
 /-- `GenericObjectSetController.Reconcile` for the ObjectSet called `name`. -/
 def reconcile (cfg : Cfg) (rm : Remotes) (name : String) (s : Sys) : Sys × Res :=
   match s.sets name with
   | none => (s, .ok)
   | some mem =>
     if condTrue mem.conds "Archived" then (s, .ok)
-    else if mem.deleting || mem.lifecycle = .archived then
-      -- handleDeletionAndArchival
-      let (w, tr) := if mem.finCached then teardown cfg mem (rm.tear mem) s.w else (s.w, TRes.done)
-      let s := { s with w := w }
-      match tr with
-      | .err => (s, .err)
-      | .notDone =>
-        let mem := if mem.lifecycle = .archived then
-          { mem with conds := setCond mem.conds ⟨"Archived", "False", "ArchivalInProgress", mem.gen, ""⟩ } else mem
-        let mem := { mem with conds := removeCond mem.conds "Available" }
-        if mem.lifecycle ≠ .archived then (s, .ok)
-        else afterStatus (s.updateStatus mem) .ok
-      | .done =>
-        let s := { s with freed := s.freed ++ [mem.name] }
-        match s.setFinalizer mem false with
-        | (s, .error _) => (s, .err)
-        | (s, .ok mem) =>
-          let mem := if mem.lifecycle = .archived then
-            { mem with conds := setCond mem.conds ⟨"Archived", "True", "Archived", mem.gen, ""⟩, controllerOf := [] } else mem
-          let mem := { mem with conds := removeCond mem.conds "Available" }
-          if mem.lifecycle ≠ .archived then (s, .ok)
-          else afterStatus (s.updateStatus mem) .ok
+    else if mem.deleting || mem.lifecycle = .archived then deletionOrArchival cfg rm s mem
     else
       match s.setFinalizer mem true with
       | (s, .error _) => (s, .err)
       | (s, .ok mem) =>
-        -- revisionReconciler
-        let revStep : Sys × Except Res OSet :=
-          if mem.revision ≠ 0 then (s, .ok mem)
-          else if mem.previous.isEmpty then (s, .ok { mem with revision := 1 })
-          else
-            -- the loop returns at the first previous revision that is missing (error) or has not
-            -- reported its revision yet (requeue), in spec order
-            match firstProblem (mem.previous.map s.sets) with
-            | some true => (s, .error .err)
-            | some false => (s, .error .requeue)
-            | none =>
-              let revs := (mem.previous.map s.sets).filterMap fun p => p.map (·.revision)
-              let mem := { mem with revision := revs.foldl max 0 + 1 }
-              match s.updateStatus mem with
-              | (s, .ok mem) => (s, .ok mem)
-              | (s, .error _) => (s, .error .err)
+        match revisionStep s mem with
         -- on `requeue` the remaining reconcilers are skipped but status is still reported
-        let finish (s : Sys) (mem : OSet) (res : Res) : Sys × Res :=
-          -- reportPausedCondition (no delegated phases: phasesArePaused = spec paused)
-          let mem := if mem.lifecycle = .paused then
-              { mem with conds := setCond mem.conds ⟨"Paused", "True", "Paused", mem.gen, ""⟩ }
-            else { mem with conds := removeCond mem.conds "Paused" }
-          afterStatus (s.updateStatus mem) res
-        match revStep with
         | (s, .error .requeue) => finish s mem .requeue
         | (s, .error _) => (s, .err)
-        | (s, .ok mem) =>
-          -- objectSetPhasesReconciler.Reconcile
-          let statusFromError (s : Sys) (mem : OSet) (reason : String) : Sys × Res :=
-            let mem := { mem with conds := setCond mem.conds (availableCond mem.gen false reason "") }
-            afterStatus (s.updateStatus mem) .requeue
-          if hasDuplicates mem.phases then statusFromError s mem "PreflightError"
-          else
-            let prev := lookupPrev s mem
-            let (w, pr) := reconcilePhases cfg mem.owner prev (rm.recon mem) mem.phases s.w []
-            let s := { s with w := w }
-            match pr with
-            | .error .preflight => statusFromError s mem "PreflightError"
-            | .error .collision => statusFromError s mem "CollisionDetected"
-            | .error .other => (s, .err)
-            | .ok (controllerOf, failing) =>
-              let mem := { mem with controllerOf := controllerOf }
-              let trans := inTransition mem controllerOf
-              let mem := if trans then
-                  { mem with conds := setCond mem.conds ⟨"InTransition", "True", "InTransition", mem.gen, ""⟩ }
-                else { mem with conds := removeCond mem.conds "InTransition" }
-              match failing with
-              | some ph =>
-                let mem := { mem with conds := setCond mem.conds (availableCond mem.gen false "ProbeFailure" ph) }
-                finish s mem .ok
-              | none =>
-                let mem := { mem with conds := setCond mem.conds (availableCond mem.gen true "Available" "") }
-                -- hasSurvivedDelay with successDelaySeconds = 0: Available is True now
-                let mem := if !condTrue mem.conds "Succeeded" && !trans then
-                    { mem with conds := setCond mem.conds ⟨"Succeeded", "True", "RolloutSuccess", mem.gen, ""⟩ }
-                  else mem
-                finish s mem .ok
+        | (s, .ok mem) => activePhases cfg rm s mem
 
 end Pko.Model.ObjectSet
